@@ -17,6 +17,20 @@ class Solution:
     def __init__(self, text):
         self.timelines = []
         self.graph = None
+        self.strings = {}
+        self.registry = None
+        if " \tTI " in text:
+            text, ti = text.split(" \tTI ", 1)
+            try:
+                self.registry = json.loads(ti)
+            except ValueError:
+                self.registry = None
+        if " \tST " in text:
+            text, st = text.split(" \tST ", 1)
+            try:
+                self.strings = {int(k): v for k, v in json.loads(st).items()}
+            except ValueError:
+                self.strings = {}
         if " \tJG " in text:
             text, jg = text.split(" \tJG ", 1)
             try:
@@ -354,3 +368,66 @@ def fmt_pars(p):
             return str(T((v[1], v[2])))
         return str(v[1])
     return "(" + ", ".join(f"{k}={one(v)}" for k, v in sorted(p.items())) + ")"
+
+
+# ---------------------------------------------------------------- objects (C17)
+
+def check_oo(sol, meta):
+    """C17: fields as the constructors wrote them, every chosen value inside the reference domain, all constraints
+    true under the chosen values"""
+    from . import oogen
+    bad = []
+    ids = {}
+    for n in meta["order"]:
+        v = sol.value(n)
+        if v[0] != "obj":
+            return [f"instance {n} is not exposed as an object: {v}"]
+        ids[n] = v[1]
+    rev = {i: n for n, i in ids.items()}
+    for n in meta["order"]:
+        it = sol.items.get(ids[n])
+        if it is None:
+            bad.append(f"instance {n} missing from the items of the solution")
+            continue
+        got = {e["name"]: e["value"] for e in it.get("exprs", [])}
+        for f, exp in meta["insts"][n]["fields"].items():
+            if f not in got:
+                bad.append(f"instance {n} ({meta['insts'][n]['cls']}) has no field {f}")
+            elif isinstance(exp, F):
+                q = rat(got[f]) if isinstance(got[f], dict) and "num" in got[f] else None
+                if q != (exp, F(0)):
+                    bad.append(f"field {n}.{f} is {q} but the constructor chain of {meta['insts'][n]['cls']} sets it to {exp}")
+            else:
+                if got[f] != ids[exp]:
+                    bad.append(f"field {n}.{f} is {rev.get(got[f], got[f])} but the constructor sets it to {exp}")
+    asg_sets = {}
+    for v, info in meta["vars"].items():
+        val = sol.value(v)
+        if info["enum"]:
+            by_str = {s: (e, s) for (e, s) in info["domain"]}
+            if val[0] == "enum":
+                chosen = [sol.strings.get(i) for i in val[1]]
+            else:
+                chosen = [val[1] if isinstance(val[1], str) else sol.strings.get(val[1])]
+            for c in chosen:
+                if c not in by_str:
+                    bad.append(f"enum variable {v} of type {info['type']} takes {c!r}, not one of its declared and included values {sorted(by_str)}")
+            asg_sets[v] = [by_str[c] for c in chosen if c in by_str]
+        else:
+            chosen = list(val[1]) if val[0] == "enum" else [val[1]]
+            names = [rev.get(i) for i in chosen]
+            for i, nm in zip(chosen, names):
+                if nm is None or nm not in info["domain"]:
+                    bad.append(f"variable {v} of type {info['type']} takes {nm or i}, which is not an instance of {info['type']} existing at its declaration (domain {info['domain']})")
+            asg_sets[v] = [nm for nm in names if nm in info["domain"]]
+    if bad:
+        return bad
+    many = [v for v, s in asg_sets.items() if len(s) != 1]
+    if many:
+        bad.append(f"variables {many} are left with {[len(asg_sets[v]) for v in many]} values in the reported solution")
+        return bad
+    asg = {v: s[0] for v, s in asg_sets.items()}
+    for c in meta["cons"]:
+        if not oogen.holds(meta, asg, c):
+            bad.append(f"constraint {c} is false under the chosen values {asg}")
+    return bad
